@@ -18,7 +18,7 @@ for sid in sorted(rows, key=lambda s: (s.split('-')[0], int(s.split('-')[1]))):
         continue
     det = [(p, rc, nv, how) for p, rc, nv, how in rows[sid] if rc == 1 and nv > 0]
     by = ' / '.join(p for p, *_ in det) or '-'
-    how = '; '.join(h for *_, h in det)[:230] if det else ('NOT DETECTED' + (': ' + meta['out_of_scope'] if meta.get('out_of_scope') else ''))
+    how = '; '.join(h for *_, h in det)[:230] if det else (('NOT REPORTED (outside the property as stated): ' + meta['out_of_scope'][:160]) if meta.get('out_of_scope') else 'NOT DETECTED' + (': ' + meta['not_detected_reason'][:180] if meta.get('not_detected_reason') else ''))
     how = how.replace('|', '/')
     print(f"| {sid} | {meta.get('summary','')[:110].replace('|','/')} | {by} | {how} |")
     meta['detected_by'] = [p for p, *_ in det]
